@@ -93,6 +93,10 @@ type Scenario struct {
 	// Net selects the cluster: "" / "local" = in-memory router connections,
 	// "tcp" = servers listening on real TCP sockets (plain TCP, free ports).
 	Net string `json:"net,omitempty"`
+	// LateTree: the servers hosting the instances do not know the tree when the
+	// first message arrives; they park it, request the tree from the envelope's
+	// peer and dispatch the parked messages when the tree has arrived.
+	LateTree bool `json:"late_tree,omitempty"`
 }
 
 // Elem is one (node, message) pair seen by a handler or read from a channel.
@@ -212,14 +216,16 @@ type line struct {
 	Det   string    `json:"detail,omitempty"`
 }
 
-func (w *worker) pos(tn *onet.TreeNode) int {
+// pos is the depth-first position of tn in the tree of the instance that
+// received it (-1 nil, -2 not a node of that tree).
+func (w *worker) pos(p *proto, tn *onet.TreeNode) int {
 	if tn == nil {
 		return -1
 	}
-	w.mu.Lock()
-	defer w.mu.Unlock()
-	if p, ok := w.nodePos[tn]; ok {
-		return p
+	for i, n := range p.List() {
+		if n == tn {
+			return i
+		}
 	}
 	return -2
 }
@@ -248,14 +254,14 @@ func newProto(tni *onet.TreeNodeInstance) (onet.ProtocolInstance, error) {
 			MsgFence
 		}) error {
 			// reported by the main loop after the channels have been drained
-			w.fence <- fenceEv{p, Elem{w.pos(m.TreeNode), m.P}}
+			w.fence <- fenceEv{p, Elem{w.pos(p, m.TreeNode), m.P}}
 			return nil
 		},
 		func(m struct {
 			*onet.TreeNode
 			MsgH1
 		}) error {
-			w.deliver(p, TH1, false, []Elem{{w.pos(m.TreeNode), m.P}})
+			w.deliver(p, TH1, false, []Elem{{w.pos(p, m.TreeNode), m.P}})
 			return nil
 		},
 		func(ms []struct {
@@ -264,7 +270,7 @@ func newProto(tni *onet.TreeNodeInstance) (onet.ProtocolInstance, error) {
 		}) error {
 			var es []Elem
 			for _, m := range ms {
-				es = append(es, Elem{w.pos(m.TreeNode), m.P})
+				es = append(es, Elem{w.pos(p, m.TreeNode), m.P})
 			}
 			w.deliver(p, THA, true, es)
 			return nil
@@ -275,7 +281,7 @@ func newProto(tni *onet.TreeNodeInstance) (onet.ProtocolInstance, error) {
 		}) error {
 			var es []Elem
 			for _, m := range ms {
-				es = append(es, Elem{w.pos(m.TreeNode), m.P})
+				es = append(es, Elem{w.pos(p, m.TreeNode), m.P})
 			}
 			w.deliver(p, THA2, true, es)
 			return nil
@@ -297,19 +303,19 @@ func (w *worker) drain(p *proto) {
 	for {
 		select {
 		case m := <-p.c1:
-			w.deliver(p, TC1, false, []Elem{{w.pos(m.TreeNode), m.P}})
+			w.deliver(p, TC1, false, []Elem{{w.pos(p, m.TreeNode), m.P}})
 			continue
 		case ms := <-p.ca:
 			var es []Elem
 			for _, m := range ms {
-				es = append(es, Elem{w.pos(m.TreeNode), m.P})
+				es = append(es, Elem{w.pos(p, m.TreeNode), m.P})
 			}
 			w.deliver(p, TCA, true, es)
 			continue
 		case ms := <-p.ca2:
 			var es []Elem
 			for _, m := range ms {
-				es = append(es, Elem{w.pos(m.TreeNode), m.P})
+				es = append(es, Elem{w.pos(p, m.TreeNode), m.P})
 			}
 			w.deliver(p, TCA2, true, es)
 			continue
@@ -371,6 +377,9 @@ func (w *worker) run(sc *Scenario) {
 	key, _ := json.Marshal(sc.Tree)
 	key = append(key, net...)
 	bt := w.trees[string(key)]
+	if sc.LateTree {
+		bt = nil // a tree nobody has seen yet
+	}
 	if bt == nil {
 		bt = &builtTree{idclass: map[onet.TreeNodeID]int{}, inTree: map[int]bool{}}
 		var sis []*network.ServerIdentity
@@ -387,6 +396,11 @@ func (w *worker) run(sc *Scenario) {
 			}
 		}
 		collect(&sc.Tree)
+		if sc.LateTree {
+			// an extra roster member that hosts no node makes roster id and tree id fresh
+			_, extra := onet.NewPrivIdentity(suite, 9999)
+			sis = append(sis, extra)
+		}
 		bt.roster = onet.NewRoster(sis)
 		var build func(t *TreeSpec, parent int) *onet.TreeNode
 		build = func(t *TreeSpec, parent int) *onet.TreeNode {
@@ -407,7 +421,9 @@ func (w *worker) run(sc *Scenario) {
 		// a second tree, rooted at the outsider, for "node of another tree"
 		otherRoster := onet.NewRoster([]*network.ServerIdentity{w.servers[Outsider].ServerIdentity, w.servers[sc.Tree.Srv].ServerIdentity})
 		bt.otherTree = otherRoster.GenerateBinaryTree()
-		w.trees[string(key)] = bt
+		if !sc.LateTree {
+			w.trees[string(key)] = bt
+		}
 	}
 	nodes, roster, tree, otherTree := bt.nodes, bt.roster, bt.tree, bt.otherTree
 	res.Nodes = bt.info
@@ -423,9 +439,23 @@ func (w *worker) run(sc *Scenario) {
 	w.instOf = map[onet.RoundID]int{}
 	w.protos = map[onet.RoundID]*proto{}
 	w.mu.Unlock()
-	for _, me := range sc.Insts {
-		if me >= 0 && me < len(nodes) {
-			w.local.Overlays[nodes[me].ServerIdentity.ID].RegisterTree(tree)
+	if sc.LateTree {
+		hosts := map[network.ServerIdentityID]bool{}
+		for _, me := range sc.Insts {
+			if me >= 0 && me < len(nodes) {
+				hosts[nodes[me].ServerIdentity.ID] = true
+			}
+		}
+		for _, s := range w.servers {
+			if !hosts[s.ServerIdentity.ID] {
+				w.local.Overlays[s.ServerIdentity.ID].RegisterTree(tree)
+			}
+		}
+	} else {
+		for _, me := range sc.Insts {
+			if me >= 0 && me < len(nodes) {
+				w.local.Overlays[nodes[me].ServerIdentity.ID].RegisterTree(tree)
+			}
 		}
 	}
 
